@@ -5,7 +5,7 @@ CG = dict(units=["type.c"], mode="dfcc", cut=["error", "error_tok", "error_at", 
 META = dict(
     level="proof",
     claim="For every expression node kind and operand type class (integer, pointer, float, double, long double) the real gen_expr leaves rsp, the depth counter and all stack slots below the entry pointer unchanged and the x87 stack exactly one deeper iff the node has type long double; every statement kind leaves rsp, depth and x87 depth unchanged, and a loop back-edge is only taken with the machine balanced as at the loop head; every conversion sequence consumes/produces exactly its x87 operand/result. Recursive contracts, children abstract.",
-    note="Trusted: CBMC, the ghost x86 machine's push/pop/x87 counting. Not covered: builtin_alloca's run-time loop, inline asm statements, function calls (see C06).",
+    note="Trusted: CBMC, the ghost x86 machine's push/pop/x87 counting. A ?: with a void arm discards the other arm's long double value. Every contract also states that x87 registers below the entry depth keep their contents. Not covered: jumps out of statement expressions nested in larger expressions (seen, not repaired), builtin_alloca's run-time loop, inline asm statements, function calls (see C06).",
     functions=["codegen.c:gen_expr", "codegen.c:gen_stmt", "codegen.c:cast", "codegen.c:push", "codegen.c:pop", "codegen.c:pushf", "codegen.c:popf", "codegen.c:load", "codegen.c:store", "codegen.c:cmp_zero", "codegen.c:gen_addr"],
     trusted_base=["CBMC 6.11", "spec/x86_ghost.h"],
     assumptions=["children are abstract expressions/statements satisfying the same contract (induction over tree depth by the recursive-contract rule)"],
@@ -54,4 +54,9 @@ def jobs(tier):
                 js.append(Job(name=f"stmt-{k}-{TI[cty]}-opt{ho}", src="../C03/stmt.c", group="C20 statement balance", defs={"KIND": k, "CTY": str(cty), "HAS_OPT": str(ho)},
                               enforce="gen_stmt", rec=True, replace=["gen_expr"],
                               sample=f"gen_stmt({k}) with a {TI[cty]} controlling/operand expression, optional parts {'present' if ho else 'absent'}", **CG))
+    js.append(Job(name="stmt-ND_FOR-ldouble-inc", src="../C03/stmt.c", group="C20 statement balance", defs={"KIND": "ND_FOR", "CTY": "5", "HAS_OPT": "1", "ETY": "13"},
+                  enforce="gen_stmt", rec=True, replace=["gen_expr"], sample="gen_stmt(ND_FOR) whose third clause is a long double expression", **CG))
+    for rt, nm in ((0, "bool"), (1, "char"), (3, "short")):
+        js.append(Job(name=f"call-balance-iiiiiii-ret{nm}", src="../C06/call.c", group="C20 call-site stack adjustment", defs={"SIG": '\'"iiiiiii"\'', "SP0": "0", "RETTY": str(rt)}, enforce="gen_expr", rec=True, replace=["gen_stmt"],
+                      sample=f"call with a stack argument to a function returning {nm}: the stack arguments are released on every return-type path", **CG))
     return js
